@@ -176,6 +176,11 @@ class BeamStatic(Scn):
     name = "beam_static"
     mesh0, mesh1 = "S1", "S2"
     results = ["displacement_norm"]
+    skip_ops = ()
+
+    def to_dynamic(self, simu):
+        simu.rho = 1.4
+        simu.Solver_Set_Hyperbolic_Algorithm(0.1)
 
     def mesh(self, key):
         return MESHES[key]().build()
@@ -214,6 +219,7 @@ class BeamStatic(Scn):
 class BeamNewmark(BeamStatic):
     name = "beam_newmark"
     dynamic = True
+    skip_ops = ("dyn",)
 
     def setup(self, simu):
         simu.rho = 1.4
@@ -286,6 +292,13 @@ class HyperScn(Scn):
     name = "hyperelastic"
     results = []
     levels = {"a": 0.02, "b": 0.045}
+    skip_ops = ()
+
+    def to_dynamic(self, simu):
+        from EasyFEA import AlgoType
+
+        simu.rho = 1.4
+        simu.Solver_Set_Hyperbolic_Algorithm(0.05, algo=AlgoType.midpoint)
 
     def build(self, mesh):
         from EasyFEA import Models, Simulations
